@@ -91,7 +91,12 @@ func fuzzTarget(f *testing.F, name string) {
 // packets among them), then 256 deterministic structure-aware rapid examples (valid, mutated and random cases
 // behind fixed and generated histories).
 func fuzzSeeds(tg *target) [][]byte {
+	if os.Getenv("VERIF_C09_FUZZ_SEEDS") == "first" {
+		// sensitivity experiments only: a corpus of one entry, so that a crash must be DISCOVERED by the engine
+		return tg.seeds()[:1]
+	}
 	o := append([][]byte(nil), tg.seeds()...)
+	o = append(o, repoPackets[tg.name]...)
 	g := rapid.Custom(tg.gen)
 	for i := 0; i < 256; i++ {
 		o = append(o, g.Example(i))
